@@ -136,7 +136,7 @@ def marshal(
                 if (
                     tpm_type is CommandResponseStream
                     and buffer_depleted
-                    and event.path == Path.from_string(".")
+                    and event.path == root_path
                     and event.value is ...
                 ):
                     # root path of new command/response although bytes are depleted
